@@ -122,6 +122,7 @@ func New(hydrunInterface hydraidego.Hydraidego) Hydrex {
 // For each domain (which can be any unique identifier, not limited to DNS):
 // - Keys not present in the new `items` map but existing in current storage will be deleted.
 // - New keys not yet present will be added to both the core data and their respective indexes.
+// - Keys already present whose value changed are rewritten with the new value (the index entry stays).
 // - Unchanged keys will remain intact.
 //
 // Requirements:
@@ -180,6 +181,17 @@ func (h *hydrex) Save(ctx context.Context, indexName string, domain string, item
 
 	// iterating through the new items
 	for key, data := range items {
+		if existing, ok := existingCoreData[key]; ok {
+			// The key is already indexed for this domain: only its value may have changed.
+			if existing.Value != data.Value {
+				itemsForSave = append(itemsForSave, &CoreData{
+					Key:       key,
+					Value:     data.Value,
+					CreatedAt: existing.CreatedAt,
+				})
+			}
+			continue
+		}
 		if _, ok := existingCoreData[key]; !ok {
 
 			// array for saving new items
